@@ -38,7 +38,7 @@ class Job:
                  timeout=600, mem_gb=8, min_obligations=1, loops=0, reach=(),
                  functions=None, note='', tiers=('quick', 'thorough'), replay=True,
                  object_bits=None, unwindset=(), no_loop_contracts=False, extra_cc=(),
-                 entry='harness', trusted=(), clauses=()):
+                 entry='harness', trusted=(), clauses=(), concretize=None):
         self.name = name
         self.harness = harness            # path relative to /verif/harness
         self.enforce = enforce            # function whose contract is enforced (None: plain harness assertions)
@@ -66,6 +66,9 @@ class Job:
         self.entry = entry
         self.trusted = list(trusted)      # assumptions specific to this job (stubs, assumed contracts)
         self.clauses = list(clauses)      # human-readable clauses this job decides
+        # counterexample concretisation (search only, never the deciding step): defines/unwind for a bounded
+        # re-run of the same harness WITHOUT loop contracts, so that a trace is a real execution
+        self.concretize = concretize      # None => {'MAXN': min(MAXN, 8)}, unwind MAXN+2; False => off
 
 
 def log(msg):
@@ -183,14 +186,21 @@ def val_to_c(v):
 
 
 def extract_inputs(trace):
-    """Last whole-object assignment to the harness variable `in` (see harness/common.h)."""
-    best = None
+    """Value of the harness variable `in` (see harness/common.h): the whole-object assignment overlaid with the
+    later whole-member assignments `in.<member> = ...` that CBMC reports for a nondet struct."""
+    base = None
     for s in trace:
-        if s.get('stepType') == 'assignment' and s.get('lhs') == 'in' and 'value' in s:
-            fn = (s.get('sourceLocation') or {}).get('function', '')
-            if best is None:
-                best = s['value']
-    return best
+        if s.get('stepType') != 'assignment' or 'value' not in s:
+            continue
+        lhs = s.get('lhs', '')
+        if lhs == 'in' and 'members' in s['value']:
+            base = json.loads(json.dumps(s['value']))
+        elif base is not None and lhs.startswith('in.') and re.match(r'^in\.[A-Za-z_0-9]+$', lhs):
+            name = lhs[3:]
+            for m in base['members']:
+                if m['name'] == name:
+                    m['value'] = s['value']
+    return base
 
 
 class JobResult:
@@ -354,6 +364,62 @@ def run_job(job, tier, inc_extra, keep_dir=None):
         shutil.rmtree(scratch, ignore_errors=True)
 
 
+def concretize(job, tier, inc_extra):
+    """Search for a concrete failing execution: same harness and contract, loop contracts NOT applied,
+    loops unwound to a small bound.  Returns (inputs, failed-property dict) or (None, None)."""
+    if job.concretize is False:
+        return None, None, {}
+    defs = dict(job.defines)
+    if tier == 'thorough':
+        defs.update(job.thorough_defines)
+    conc = dict(job.concretize or {})
+    unwind = conc.pop('unwind', None)
+    if 'MAXN' in defs and 'MAXN' not in conc:
+        conc['MAXN'] = min(int(defs['MAXN']), 8)
+    defs.update(conc)
+    if unwind is None:
+        unwind = int(defs.get('MAXN', 8)) + 2
+    try:
+        scratch, _ = make_scratch(job.tus, lambda w: None)
+    except Undecided:
+        return None, None, defs
+    try:
+        dflags = ['-D%s=%s' % (k, v) if v is not None else '-D%s' % k for k, v in defs.items()]
+        h = os.path.join(VERIF, 'harness', job.harness)
+        a, b = os.path.join(scratch, 'a.gb'), os.path.join(scratch, 'b.gb')
+        rc, out, _ = run(cc_base(inc_extra, scratch) + dflags + job.extra_cc + ['--function', job.entry, h, '-o', a], 300)
+        if rc != 0:
+            return None, None, defs
+        gi = ['goto-instrument', '--dfcc', job.entry]
+        if job.enforce:
+            gi += ['--enforce-contract-rec' if job.rec else '--enforce-contract', job.enforce]
+        for g in job.replace:
+            gi += ['--replace-call-with-contract', g]
+        rc, out, _ = run(gi + [a, b], 600, mem_gb=job.mem_gb)
+        if rc != 0:
+            return None, None, defs
+        cb = ['cbmc', b, '--json-ui', '--trace', '--unwind', str(unwind)] + [f for f in job.flags]
+        rc, out, _ = run(cb, max(300, job.timeout), mem_gb=job.mem_gb * 2)
+        if rc == -999:
+            return None, None, defs
+        results, msgs, status = parse_cbmc_json(out)
+        if not results:
+            return None, None, defs
+        cands = [r for r in results if r['status'] == 'FAILURE' and r.get('trace')
+                 and not r.get('description', '').startswith('REACH ') and 'unwind' not in r['property']
+                 and 'loop_invariant' not in r['property']]
+        cands.sort(key=lambda r: 0 if 'postcondition' in r['property'] else (1 if 'assertion' in r['property'] else 2))
+        for r in cands:
+            inp = extract_inputs(r['trace'])
+            if inp is not None:
+                sl = r.get('sourceLocation') or {}
+                return inp, {'property': r['property'], 'description': r.get('description', ''),
+                             'file': os.path.basename(sl.get('file', '')), 'line': sl.get('line', '')}, defs
+        return None, None, defs
+    finally:
+        shutil.rmtree(scratch, ignore_errors=True)
+
+
 # ----------------------------------------------------------------------------------------
 # native replay
 
@@ -374,12 +440,25 @@ def write_replay(prop, job, res, tier):
     for f in res.failed[:30]:
         hdr.append(' *   %s %s [%s:%s]' % (f['property'], f['description'][:100], f['file'], f['line']))
     hdr.append(' * verifier: %s' % res.cmdline)
-    inputs = getattr(res, 'trace_inputs', None)
     defs = dict(job.defines)
     if tier == 'thorough':
         defs.update(job.thorough_defines)
     confirmed = False
     text = ''
+    inputs = None
+    # A trace through a havocked loop (loop-contract step case) is not an execution of the real code, so inputs
+    # are looked for in a bounded re-run without loop contracts first (search only), then in the original trace.
+    if job.replay and job.replay != 'noinput':
+        try:
+            cin, cprop, cdefs = concretize(job, tier, ensure_generated_headers())
+        except Exception as e:
+            cin, cprop, cdefs = None, None, {}
+        if cin is not None:
+            inputs, defs = cin, cdefs
+            hdr.append(' * concrete failing execution found by a bounded re-run without loop contracts: %s -- %s [%s:%s]'
+                       % (cprop['property'], cprop['description'][:100], cprop['file'], cprop['line']))
+        elif job.loops == 0:
+            inputs = getattr(res, 'trace_inputs', None)
     if job.replay == 'noinput' or (job.replay and inputs is not None):
         init = val_to_c(inputs) if inputs is not None else '{0}'
         hdr.append(' * counterexample inputs extracted from the CBMC trace (harness variable `in`).')
